@@ -183,6 +183,14 @@ func runC10Case(seed int64, idx int) *c10Result {
 		}
 		plURL := baseURL + name
 		pl := &origin.Playlist{URL: plURL, TargetDuration: 1, OmitRangeStart: rangeMode == "nostart"}
+		if (uint64(seed)*3+uint64(idx)*7)%6 == 0 {
+			// a Low-Latency stream that has ended, or whose packager advertises blocking reload
+			// without hinting parts: CAN-BLOCK-RELOAD=YES but no EXT-X-PRELOAD-HINT; played like any
+			// other playlist (whole segments, look-ahead of two)
+			pl.CanBlockReload = true
+			pl.PartTargetNS = 20e6
+			feats["can-block-reload-without-hint"] = true
+		}
 		if rangeMode == "nostart" && idx%2 == 1 {
 			pl.RangeStartEvery = 2 + idx%3 // explicit offsets again in the middle of the run
 			feats["range-offsets-mixed"] = true
